@@ -27,6 +27,8 @@ def run(seed: Path) -> dict:
         lines = allv + [l for l in p.stdout.splitlines() if l.startswith("KNOWN-FINDING")]
         detail = [l for l in p.stdout.splitlines() if l.startswith("  ")][:2]
         res = {"property": prop, "exit": p.returncode, "lines": lines[:6], "detail": detail, "wall_s": round(time.time() - t0, 1)}
+        if p.returncode not in (0, 1):
+            res["tail"] = (p.stdout + "\n" + p.stderr).splitlines()[-8:]
     finally:
         subprocess.run(["git", "-C", "/repo", "worktree", "remove", "--force", wt])
     (seed / "result.json").write_text(json.dumps(res, indent=1))
